@@ -455,8 +455,16 @@ def success_protocol(chk, repo, ms, f):
                         sub = unguarded_data_returns(helper, {params[pos[0]]}, depth + 1)
                         bad += [f'{ln} (in {helper.name})' for ln in sub]
                         continue
+                # ... or the result of another method / property of the same object: judged by that method's own returns
+                tgt = v.func if isinstance(v, ast.Call) else v
+                if depth < 3 and isinstance(tgt, ast.Attribute) and isinstance(tgt.value, ast.Name) and tgt.value.id in owner_names and tgt.attr in cls_methods \
+                        and cls_methods[tgt.attr] is not fn_:
+                    sub = unguarded_data_returns(cls_methods[tgt.attr], {'self'}, depth + 1)
+                    bad += [f'{ln} (in {tgt.attr})' for ln in sub]
+                    continue
                 bad.append(st.lineno)
         return bad
+    cls_methods = methods(cls)
     for name, m in methods(cls).items():
         returns_data = any(isinstance(r, ast.Return) and not is_none(r.value) for r in ast.walk(m))
         if name in ('__init__', '__dealloc__', '__len__') or not returns_data: continue
